@@ -271,3 +271,82 @@ func VH_C08_End(kind, eol int) {
 	vAssert(s.state == want, "state after a section end")
 	vhUnchanged(s, before, 2, "section end changes no goroutine")
 }
+
+// VH_C08_DeepReport: a whole report through ScanSnapshot with stacks deeper
+// than the one-step harnesses build: two operations with n1 and n2 frames, a
+// creation section for each goroutine with m1 and m2 frames, every frame with
+// its own function letter (symbolic) and line. Every goroutine carries exactly
+// its own frames, in order - in particular a stack growing past a capacity
+// boundary never spills into another stack.
+//
+//verif:prop C08
+//verif:param n1 1,4,5,6
+//verif:param n2 1,2,5
+//verif:param m1 1,5
+//verif:param m2 1,2
+func VH_C08_DeepReport(n1, n2, m1, m2 int) {
+	var data []byte
+	add := func(s string) { data = append(data, s...) }
+	line := 0
+	type fr struct {
+		fn   byte
+		line int
+	}
+	frames := func(tag string, n int) []fr {
+		var out []fr
+		for i := 0; i < n; i++ {
+			line++
+			f := fr{fn: vChoose(tag+string(rune('0'+i)), "fghk"), line: line}
+			out = append(out, f)
+			add("  main.")
+			data = append(data, f.fn)
+			add("()\n      /a.go:")
+			add(string(rune('0'+line/10)) + string(rune('0'+line%10)))
+			add(" +0x1\n")
+		}
+		add("\n")
+		return out
+	}
+	add(vhSep + "\n" + vhWarn + "\n")
+	add("Write at 0x00c000010000 by goroutine 7:\n")
+	op1 := frames("a", n1)
+	add("Previous read at 0x00c000010000 by goroutine 6:\n")
+	op2 := frames("b", n2)
+	add("Goroutine 7 (running) created at:\n")
+	cr1 := frames("c", m1)
+	add("Goroutine 6 (finished) created at:\n")
+	cr2 := frames("d", m2)
+	data = data[:len(data)-1] // the closing separator follows the last frame directly
+	add(vhSep + "\n")
+	f := &vhFeeder{data: data}
+	w := &vhSink{}
+	s, _, err := ScanSnapshot(f, w, &Opts{})
+	vReach("deep report scanned")
+	vAssert(s != nil && err == nil, "the report is parsed")
+	if s == nil {
+		return
+	}
+	vAssert(len(s.Goroutines) == 2, "one goroutine per operation")
+	if len(s.Goroutines) != 2 {
+		return
+	}
+	check := func(got []Call, want []fr, what string) {
+		vAssert(len(got) == len(want), what+": number of frames")
+		if len(got) != len(want) {
+			return
+		}
+		for i := range want {
+			vAssert(vAnd(len(got[i].Func.Name) == 1, got[i].Line == want[i].line), what+": frame line")
+			if len(got[i].Func.Name) == 1 {
+				vAssert(got[i].Func.Name[0] == want[i].fn, what+": frame function")
+			}
+		}
+	}
+	g1, g2 := s.Goroutines[0], s.Goroutines[1]
+	vAssert(g1.ID == 7 && g2.ID == 6 && g1.RaceWrite && !g2.RaceWrite, "ids and kinds in printed order")
+	vAssert(g1.State == "running" && g2.State == "finished", "running/finished state per goroutine")
+	check(g1.Stack.Calls, op1, "first operation stack")
+	check(g2.Stack.Calls, op2, "second operation stack")
+	check(g1.CreatedBy.Calls, cr1, "first creation stack")
+	check(g2.CreatedBy.Calls, cr2, "second creation stack")
+}
